@@ -18,24 +18,25 @@ import (
 )
 
 type vfGateEnv struct {
-	sc       *vfScope
-	tr       *vfTracer
-	node     *vfNode
-	s        *Session
-	conn     *Conn
-	mc       *vfMemConn
-	connID   int
-	wireBase int
-	proto    int
-	nextReq  int64
-	wg       sync.WaitGroup
-	hold     map[string]bool // tokens the node must not answer until told
-	mu       sync.Mutex
-	pend     map[string]func()
+	sc         *vfScope
+	tr         *vfTracer
+	node       *vfNode
+	s          *Session
+	conn       *Conn
+	mc         *vfMemConn
+	connID     int
+	wireBase   int
+	proto      int
+	nextReq    int64
+	wg         sync.WaitGroup
+	hold       map[string]bool // tokens the node must not answer until told
+	mu         sync.Mutex
+	pend       map[string]func()
+	pendStream map[string]int
 }
 
 func vfNewGateEnv(kind string, proto int, coalesce bool) (*vfGateEnv, error) {
-	e := &vfGateEnv{sc: vfNewScope(), hold: map[string]bool{}, pend: map[string]func(){}}
+	e := &vfGateEnv{sc: vfNewScope(), hold: map[string]bool{}, pend: map[string]func(){}, pendStream: map[string]int{}}
 	e.tr = e.sc.tr
 	cl := &vfCluster{Partitioner: "org.apache.cassandra.dht.Murmur3Partitioner", Version: "3.11.4"}
 	desc := vfDesc(1)
@@ -53,8 +54,17 @@ func vfNewGateEnv(kind string, proto int, coalesce bool) (*vfGateEnv, error) {
 			nc.Reply(f, vfOpResult, vfSetKeyspaceBody(tok))
 		}
 		e.mu.Lock()
+		// adversarial: the same stream id is seen again while an earlier request on it is still
+		// unanswered: answer the OLD request now, first
+		for otok, oans := range e.pend {
+			if e.pendStream[otok] == f.Stream {
+				delete(e.pend, otok)
+				oans()
+			}
+		}
 		if strings.HasSuffix(tok, "_never") {
-			e.pend[tok] = answer // answered only if the scenario says so
+			e.pend[tok] = answer // answered only if the scenario says so (or on reuse of the id)
+			e.pendStream[tok] = f.Stream
 			e.mu.Unlock()
 			return true
 		}
@@ -274,7 +284,7 @@ var vfGateScenarios = map[string]func(e *vfGateEnv) string{
 			return ""
 		}
 		gq := e.sc.gates.Arm("q_enq", 0)
-		id, _, cancel := e.start("prompt", true)
+		id, _, cancel := e.start("never", true)
 		_ = id
 		if !gq.AwaitReached(vfGateWait) {
 			return "q_enq not reached"
@@ -283,8 +293,10 @@ var vfGateScenarios = map[string]func(e *vfGateEnv) string{
 		time.Sleep(2 * time.Millisecond) // several coalescing windows
 		gq.Release()
 		time.Sleep(5 * time.Millisecond)
-		for i := 0; i < 3; i++ {
+		// enough later requests for the allocator to come back to that id if it was released
+		for i := 0; i < 6; i++ {
 			e.start("prompt", false)
+			time.Sleep(time.Millisecond)
 		}
 		return ""
 	},
@@ -321,7 +333,7 @@ func TestVfConnGates(t *testing.T) {
 	for _, name := range names {
 		for _, proto := range []int{2, 4} {
 			for _, coalesce := range []bool{false, true} {
-				if name != "write_after_partial" && coalesce && proto == 2 {
+				if name != "write_after_partial" && name != "cancel_while_queued" && coalesce && proto == 2 {
 					continue
 				}
 				e, err := vfNewGateEnv("gate:"+name, proto, coalesce)
